@@ -49,6 +49,6 @@ STREAMS = [
                       simprops.mon_c07, quick_n=400, thorough_n=10000, quick_ops=50, thorough_ops=200),
 ]
 
-LEVEL_TEXT = "Proof (single-threaded part): the time-left computation (ares_timeval_remaining, regenerated from the source on every run) is proved never negative and exactly max(0, deadline - now) for normalised times; Lean 4 theorems that the timeout hint is never later than the earliest pending deadline nor the caller's maximum and that processing at or after it retries or fails every expired query (by-timeout index sorted as an invariant). Tie: ares_timeout() is evaluated after every simulator op against the deadlines of all pending queries. Event-thread part: Lean 4 theorem over the Event transition system that, in every interleaving, the sleeping event thread either has a wake-up pending or a timeout no later than 1 ms after every pending deadline (kernel-checked counterexample for the pinned tree, F11, repaired), where the millisecond value handed to the backend is the expression re-extracted from ares_event_thread() on every run (tools/gen_evtimeout.py) and proved never to be 0, the backends' wait-forever value, and where the guard under which ares_send_query() wakes the thread is likewise re-extracted (tools/gen_evwake.py) and proved to leave no uncovered deadline; tie: on each backend (epoll, poll, select) a query to a silent server on a fresh / idle kept-open / busy connection must time out by itself within its retry budget, a query arriving while the thread sleeps on a later deadline must be retransmitted at its own deadline, and a deadline that expires during a slow callback must still be served. Partial: the wall-clock bound is observed, OS scheduling is not modelled."
+LEVEL_TEXT = "Proof (single-threaded part): the time-left computation (ares_timeval_remaining, regenerated from the source on every run) is proved never negative and exactly max(0, deadline - now) for normalised times, hence monotone in the deadline, never growing as the clock advances, and exact under an early wake-up (asking again after d microseconds gives max(0, left - d)); Lean 4 theorems that the timeout hint is never later than the earliest pending deadline nor the caller's maximum and that processing at or after it retries or fails every expired query (by-timeout index sorted as an invariant). Tie: ares_timeout() is evaluated after every simulator op against the deadlines of all pending queries. Event-thread part: Lean 4 theorem over the Event transition system that, in every interleaving, the sleeping event thread either has a wake-up pending or a timeout no later than 1 ms after every pending deadline (kernel-checked counterexample for the pinned tree, F11, repaired), where the millisecond value handed to the backend is the expression re-extracted from ares_event_thread() on every run (tools/gen_evtimeout.py) and proved never to be 0, the backends' wait-forever value, and where the guard under which ares_send_query() wakes the thread is likewise re-extracted (tools/gen_evwake.py) and proved to leave no uncovered deadline; tie: on each backend (epoll, poll, select) a query to a silent server on a fresh / idle kept-open / busy connection must time out by itself within its retry budget, a query arriving while the thread sleeps on a later deadline must be retransmitted at its own deadline, and a deadline that expires during a slow callback must still be served. Partial: the wall-clock bound is observed, OS scheduling is not modelled."
 LEVEL_NOTE = "Trusted: Lean kernel; model faithfulness (channel model for the hint, Event transition system for the thread); virtual clock for the single-threaded part, real clock with slack for the thread scenarios; harness/h_thread.c."
 TECHNIQUE = 'Lean 4 proof over the sorted deadline index + differential correspondence of ares_timeout()'
